@@ -23,30 +23,27 @@ open Hts.Model Hts.Model.Index Hts.Model.IndexIO
 /-! ### BAI: read ∘ write -/
 
 /-- `read_write` (BAI): reading the written bytes succeeds and gives exactly the canonical form of
-the index, for every well-formed index with at least one reference -/
-theorem bai_read_write (i : Index) (h : WF i) (hne : i.refs ≠ []) :
-    readBai (writeBai i) = .ok (some (norm i)) := readBai_writeBai i h hne
+the index, for EVERY well-formed index — with or without references (the zero-reference special case
+of `bam.ReadIndex`, DESIGN §6 #25, was repaired in /repo bb4b88e) -/
+theorem bai_read_write_full : ∀ i : Index, WF i → readBai (writeBai i) = .ok (norm i) :=
+  fun i h => readBai_writeBai i h
 
-/-- the full statement (no restriction on the number of references) -/
-def bai_read_write_full : Prop := ∀ i : Index, WF i → readBai (writeBai i) = .ok (some (norm i))
+theorem bai_read_write (i : Index) (h : WF i) : readBai (writeBai i) = .ok (norm i) := readBai_writeBai i h
 
-/-- it is false: an index without references (only unplaced records, or no record) reads back as a
-nil index — DESIGN §6 #25, kept as a recorded finding -/
-theorem bai_read_write_witness : ¬ bai_read_write_full := by
-  intro h
-  have h1 := h { unmapped := some 3 }
-    { nrefs := (by decide), bounds := (by intro r hr; cases hr), flag := (by intro h; cases h),
-      um := (by intro n hn; cases hn; decide) }
-  rw [readBai_writeBai_noRefs _ rfl] at h1
-  cases h1
+/-- in particular an index of unplaced records only (no reference, a trailer) round-trips -/
+theorem bai_read_write_noRefs (n : Nat) (hn : n < 18446744073709551616) :
+    readBai (writeBai { unmapped := some n }) = .ok { unmapped := some n, isSorted := true, lastRecord := maxInt } :=
+  readBai_writeBai _
+    { nrefs := (by simp), bounds := (by intro r hr; cases hr), flag := (by intro h; cases h),
+      um := (by intro m hm; cases hm; exact hn) }
 
 /-- `write_norm`: the canonical form writes to the same bytes -/
 theorem bai_write_norm (i : Index) : writeBai (norm i) = writeBai i := writeBai_norm i
 
 /-- hence: write, read, write again gives identical bytes -/
-theorem bai_rewrite_identical (i : Index) (h : WF i) (hne : i.refs ≠ []) :
-    ∃ i', readBai (writeBai i) = .ok (some i') ∧ writeBai i' = writeBai i ∧ WF i' :=
-  ⟨norm i, readBai_writeBai i h hne, writeBai_norm i, wf_norm i h⟩
+theorem bai_rewrite_identical (i : Index) (h : WF i) :
+    ∃ i', readBai (writeBai i) = .ok i' ∧ writeBai i' = writeBai i ∧ WF i' :=
+  ⟨norm i, readBai_writeBai i h, writeBai_norm i, wf_norm i h⟩
 
 /-- `chunks_norm`: every `Chunks` query is answered identically by the re-read index (BAI and tabix
 share `internal.Index.Chunks`) -/
@@ -77,28 +74,21 @@ theorem bai_chunks_complete_after_roundtrip (recs : List Bai.BaiRec)
     (r : Bai.BaiRec) (hr : r ∈ recs) (hp : (Hts.Props.C04.baiRec r).placed = true)
     (beg stop : Int) (hb : 0 ≤ beg) (hq : beg < stop) (hs29 : stop ≤ 536870912)
     (hov1 : r.pos < stop) (hov2 : beg < r.stop) (s : List Chunk → List Chunk) (hs : EncLaw s) :
-    ∃ i', readBai (writeBai (Hts.Props.C04.baiBuilt recs)) = .ok (some i') ∧
+    ∃ i', readBai (writeBai (Hts.Props.C04.baiBuilt recs)) = .ok i' ∧
       ∃ cs, Bai.chunks Coord.overlappingBinsFor s i' (Hts.Props.C04.baiRec r).rid beg stop = .ok cs ∧
         coveredBy cs r.chunk := by
-  have hmem : Hts.Props.C04.baiRec r ∈ recs.map Hts.Props.C04.baiRec := List.mem_map.2 ⟨r, hr, rfl⟩
-  obtain ⟨ref, href, _⟩ := Hts.Props.C04.bins_inv _ h _ hmem hp
-  have hne : (Hts.Props.C04.baiBuilt recs).refs ≠ [] := by
-    intro he
-    unfold Hts.Props.C04.baiBuilt Hts.Props.C04.built at he
-    rw [he] at href; simp at href
-  refine ⟨norm (Hts.Props.C04.baiBuilt recs), readBai_writeBai _ hwf hne, ?_⟩
+  refine ⟨norm (Hts.Props.C04.baiBuilt recs), readBai_writeBai _ hwf, ?_⟩
   rw [bai_chunks_norm]
   exact (Hts.Props.C04.bai_chunks_complete recs h r hr hp beg stop hb hq hs29 hov1 hov2 id s encLaw_id hs).1
 
 /-- "or previously read" (BAI): WHATEVER byte string `bam.ReadIndex` accepts, the index it returns is
 well-formed, so writing it and reading it back gives its canonical form, the same bytes on every
 further write, the same answers and the same statistics -/
-theorem bai_previously_read (bs : Bytes) (i : Index) (h : readBai bs = .ok (some i)) :
-    WF i ∧ readBai (writeBai i) = .ok (some (norm i)) ∧ writeBai (norm i) = writeBai i ∧
+theorem bai_previously_read (bs : Bytes) (i : Index) (h : readBai bs = .ok i) :
+    WF i ∧ readBai (writeBai i) = .ok (norm i) ∧ writeBai (norm i) = writeBai i ∧
       (∀ rid beg stop bins, chunks (norm i) rid beg stop bins = chunks i rid beg stop bins) ∧
-      (norm i).unmapped = i.unmapped := by
-  obtain ⟨hwf, hne⟩ := readBai_wf h
-  exact ⟨hwf, readBai_writeBai i hwf hne, writeBai_norm i, IndexIO.chunks_norm i, rfl⟩
+      (norm i).unmapped = i.unmapped :=
+  ⟨readBai_wf h, readBai_writeBai i (readBai_wf h), writeBai_norm i, IndexIO.chunks_norm i, rfl⟩
 
 /-- every index built by `Add` from a coordinate-sorted input is representable (`WF`), under
 hypotheses on the INPUT only: fewer than 2^31 - 1 records, reference ids below 2^31 - 1, bin numbers as
@@ -110,13 +100,12 @@ theorem built_wf (recs : List Rec) (h : SortedInput recs) (hlen : recs.length < 
   IndexIO.built_wf recs h hlen hrid hbin hoff
 
 /-- BAI end to end, hypotheses on the input only: the index built from any coordinate-sorted sequence
-of `sam.Record`s with at least one placed record is written, read back as its canonical form, and
+of `sam.Record`s (placed, unplaced or none at all) is written, read back as its canonical form, and
 written again to identical bytes -/
 theorem bai_roundtrip_built (recs : List Bai.BaiRec) (h : SortedInput (recs.map Hts.Props.C04.baiRec))
     (hlen : recs.length < 2147483647) (hrid : ∀ r, r ∈ recs → r.rid < 2147483647)
-    (hoff : ∀ r, r ∈ recs → r.chunk.e < 9223372036854775808)
-    (hplaced : ∃ r, r ∈ recs ∧ (Hts.Props.C04.baiRec r).placed = true) :
-    readBai (writeBai (Hts.Props.C04.baiBuilt recs)) = .ok (some (norm (Hts.Props.C04.baiBuilt recs))) ∧
+    (hoff : ∀ r, r ∈ recs → r.chunk.e < 9223372036854775808) :
+    readBai (writeBai (Hts.Props.C04.baiBuilt recs)) = .ok (norm (Hts.Props.C04.baiBuilt recs)) ∧
       writeBai (norm (Hts.Props.C04.baiBuilt recs)) = writeBai (Hts.Props.C04.baiBuilt recs) := by
   have hwf : WF (Hts.Props.C04.baiBuilt recs) := by
     apply IndexIO.built_wf _ h (by simpa using hlen)
@@ -135,33 +124,26 @@ theorem bai_roundtrip_built (recs : List Bai.BaiRec) (h : SortedInput (recs.map 
     · intro x hx
       obtain ⟨r, hr, rfl⟩ := List.mem_map.1 hx
       exact hoff r hr
-  obtain ⟨r, hr, hp⟩ := hplaced
-  have hmem : Hts.Props.C04.baiRec r ∈ recs.map Hts.Props.C04.baiRec := List.mem_map.2 ⟨r, hr, rfl⟩
-  obtain ⟨ref, href, _⟩ := Hts.Props.C04.bins_inv _ h _ hmem hp
-  have hne : (Hts.Props.C04.baiBuilt recs).refs ≠ [] := by
-    intro he
-    unfold Hts.Props.C04.baiBuilt Hts.Props.C04.built at he
-    rw [he] at href; simp at href
-  exact ⟨readBai_writeBai _ hwf hne, writeBai_norm _⟩
+  exact ⟨readBai_writeBai _ hwf, writeBai_norm _⟩
 
 /-! ### tabix: header fields, name block, index body -/
 
 /-- `read_write` (tabix): for every representable tabix index (header fields in their int32/byte
-ranges, at least one reference, as many NUL-free names as references) -/
-theorem tabix_read_write (t : Tabix.TIndex) (h : TWF t) : readTabix (writeTabix t) = .ok (some (normTabix t)) :=
+ranges, as many NUL-free names as references — possibly none) -/
+theorem tabix_read_write (t : Tabix.TIndex) (h : TWF t) : readTabix (writeTabix t) = .ok (normTabix t) :=
   readTabix_writeTabix t h
 
 theorem tabix_write_norm (t : Tabix.TIndex) : writeTabix (normTabix t) = writeTabix t := writeTabix_norm t
 
 theorem tabix_rewrite_identical (t : Tabix.TIndex) (h : TWF t) :
-    ∃ t', readTabix (writeTabix t) = .ok (some t') ∧ writeTabix t' = writeTabix t ∧
+    ∃ t', readTabix (writeTabix t) = .ok t' ∧ writeTabix t' = writeTabix t ∧
       t'.hdr = t.hdr ∧ t'.names = t.names ∧ t'.idx = norm t.idx :=
   ⟨normTabix t, readTabix_writeTabix t h, writeTabix_norm t, rfl, rfl, rfl⟩
 
 /-- "or previously read" (tabix): whatever byte string `tabix.ReadFrom` accepts, the index it returns is
 well-formed, reads back as its canonical form and re-writes to the same bytes -/
-theorem tabix_previously_read (bs : Bytes) (t : Tabix.TIndex) (h : readTabix bs = .ok (some t)) :
-    TWF t ∧ readTabix (writeTabix t) = .ok (some (normTabix t)) ∧ writeTabix (normTabix t) = writeTabix t :=
+theorem tabix_previously_read (bs : Bytes) (t : Tabix.TIndex) (h : readTabix bs = .ok t) :
+    TWF t ∧ readTabix (writeTabix t) = .ok (normTabix t) ∧ writeTabix (normTabix t) = writeTabix t :=
   ⟨readTabix_wf h, readTabix_writeTabix t (readTabix_wf h), writeTabix_norm t⟩
 
 /-- queries by name are answered identically when the re-built name map agrees with the one `Add`
@@ -196,19 +178,22 @@ theorem tabix_chunks_norm_built (hdr : Tabix.Header) (recs : List Tabix.TRec) (n
       Tabix.chunks Coord.overlappingBinsFor Local.adjacent (Hts.Props.C04.tbxBuilt hdr recs) name beg stop :=
   tabix_chunks_norm _ _ name beg stop (Tabix.built_map_agrees Coord.binFor hdr recs name)
 
-/-- the zero-reference case for tabix (same finding as BAI) -/
-theorem tabix_read_write_noRefs (hdr : Tabix.Header) : readTabix (writeTabix { hdr := hdr }) = .ok none := by
-  unfold readTabix writeTabix
-  have hm : ∀ X : Bytes, rBytes 4 (tbiMagic ++ X) = .ok (tbiMagic, X) := by intro X; simp [rBytes, tbiMagic]
-  simp only [List.append_assoc]
-  rw [hm]
-  simp only [ne_eq, not_true_eq_false, if_false]
-  rw [rI32_i32 _ (by simp) (by simp)]
-  simp
+/-- a tabix index without references and names (nothing or only unplaced lines added) round-trips -/
+theorem tabix_read_write_noRefs (n : Nat) (hn : n < 18446744073709551616) :
+    readTabix (writeTabix { idx := { unmapped := some n } }) =
+      .ok (normTabix { idx := { unmapped := some n } }) :=
+  readTabix_writeTabix _
+    { idx := { nrefs := (by simp), bounds := (by intro r hr; cases hr), flag := (by intro h; cases h),
+               um := (by intro m hm; cases hm; exact hn) }
+      hdr := { format := (by simp), nameCol := (by simp), begCol := (by simp), endCol := (by simp),
+               metaChar := (by simp), skip := (by simp), namesLen := (by simp [nameBlock]),
+               noNul := (by intro nm hnm; cases hnm) }
+      count := rfl }
 
 /-! ### CSI versions 1 and 2, any auxiliary bytes -/
 
-/-- `read_write` (CSI): for every representable CSI index of version 1 or 2 with depth ≤ 9 -/
+/-- `read_write` (CSI): for every representable CSI index of version 1 or 2 with depth ≤ 9 and
+`minShift + 3·depth ≤ 62` (the geometry range `csi.ReadFrom` accepts) -/
 theorem csi_read_write (i : Csi.CIndex) (h : CWF i) : readCsi (writeCsi i) = .ok (normCsi i) :=
   readCsi_writeCsi i h
 
